@@ -237,9 +237,13 @@ def judgeRedactXml (payload impl : String) : Verdict :=
           (RedactSpec.deepSx e).toStr == (RedactSpec.deepSx w).toStr
       | _, _ => none
     let one : Sx → Option (Bool × String × Option Bool) := fun
-      | .list [.atom _, .list [.atom "before", bf], .list [.atom "after", af], .list [.atom "decl", d], .list [.atom "leak", l]] =>
+      | .list [.atom _, .list [.atom "before", bf], .list [.atom "after", af], .list [.atom "decl", d], .list [.atom "leak", l], .list [.atom "seen", sn]] =>
         let want := markAt bf path
-        some (af.toStr == want.toStr && d.toStr == "true" && (!hasPath bf path || l.toStr == "false"), want.toStr, specAgrees bf want)
+        -- the read path sees the marker where the redaction wrote it (paths of element names and indices; an
+        -- attribute key `-at` is not a KFL identifier)
+        let attr := path.any fun st => match st with | .atom k => k.startsWith "#2d" | _ => false
+        let seenOk := attr || !hasPath bf path || sn.toStr == "true"
+        some (af.toStr == want.toStr && d.toStr == "true" && (!hasPath bf path || l.toStr == "false") && seenOk, want.toStr, specAgrees bf want)
       | _ => none
     match one p, one b with
     | some (okp, w, sp), some (okb, _, _) =>
